@@ -17,6 +17,18 @@ verus! {
 //@take src/models/envelope/pae_v1.rs struct:PaeV1
 
 //@extract src/models/envelope/pae_v1.rs fn:consume_load_len props=C20,C14
+//@subst G1 /\|num\| \*num == SPLIT_U8/ => |num: &u8| -> (b: bool) ensures b == (*num == 0x20u8) { *num == SPLIT_U8 }
+//@contract ret=r
+    ensures r is Ok <==> spec_consume(raw@) is Some,  // [C20]
+            r is Ok ==> (r->Ok_0).0 == (spec_consume(raw@)->0).0 && (r->Ok_0).1@ == (spec_consume(raw@)->0).1,  // [C20]
+//@after /let mut iter = raw\.splitn/
+    proof { assert(splitn_pieces(iter) == split2(raw@, is_sp())); }
+//@before /let length =/
+    proof {
+        assert forall|s: Seq<char>| #[trigger] vstd::utf8::encode_utf8(s) == length_raw@ implies vstd::utf8::decode_utf8(length_raw@) == s by {
+            vstd::utf8::encode_utf8_decode_utf8(s);
+        }
+    }
 //@end
 
 impl PaeV1 {
@@ -27,6 +39,22 @@ impl PaeV1 {
     ensures r@ == spec_pae(payload_ver@, payload@),  // [C20]
 //@end
 //@extract src/models/envelope/pae_v1.rs "impl:DSSEParser for PaeV1/fn:pae_unpack" props=C20,C14
+//@contract ret=r
+    ensures r is Ok <==> spec_unpack(bytes@) is Some,  // [C20]
+            r is Ok ==> (r->Ok_0).0@ == (spec_unpack(bytes@)->0).0 && (r->Ok_0).1@ == (spec_unpack(bytes@)->0).1,  // [C20]
+//@fmt 1
+//@before /let raw = bytes/
+        proof {
+            assert forall|p: &[u8]| #[trigger] slice_pattern_view::<u8, [u8]>(p) == p@ by { fact_slice_pattern_u8(p); }
+        }
+//@before /let payload_ver = str::from_utf8/
+        proof {
+            assert forall|s: Seq<char>| #[trigger] vstd::utf8::encode_utf8(s) == raw@.subrange(0, payload_ver_len as int)
+                implies vstd::utf8::decode_utf8(raw@.subrange(0, payload_ver_len as int)) == s by {
+                vstd::utf8::encode_utf8_decode_utf8(s);
+            }
+            assert forall|s: Seq<char>| (#[trigger] parse_spec::<String>(s)) is Some && parse_spec::<String>(s)->0@ == s by { fact_parse_string(s); }
+        }
 //@end
 }
 
